@@ -26,9 +26,6 @@ fn item_of<M: VMode>(r: &Result<Option<M::Output<u16>>, ()>) -> (bool, bool, Opt
 /// `cfg`: bounds come from `configure()` (next_cfg) instead of the builder methods.
 pub fn h_repeated_next<M: VMode, Er: VEr, const CFG: bool>() {
     run::<u8, Er, (), _>(|inp, s0| {
-        let at_least = ch::any_usize();
-        let capped = ch::any_bool();
-        let cap = ch::any_usize();
         let count0 = ch::any_usize();
         // state invariant of the iteration: `count` items were yielded, each consumed at least one token
         ch::assume(count0 <= s0.pos);
@@ -37,26 +34,47 @@ pub fn h_repeated_next<M: VMode, Er: VEr, const CFG: bool>() {
         ch::assume(count0 < usize::MAX);
         let mut count = count0;
         let item = anyp_prog::<SymIn<u8>, X<Er>>(0);
+        // bounds set on the builder
+        let (b_lo, b_capped, b_hi) = (ch::any_usize(), ch::any_bool(), ch::any_usize());
+        let mut p = item.repeated().at_least(b_lo);
+        if b_capped {
+            p = p.at_most(b_hi);
+        }
+        // the bounds in force: those of the builder, overridden one by one by the configuration where it
+        // sets them (C15: "matches exactly as the statically configured parser with those settings")
+        let (at_least, capped, cap);
         let r = if CFG {
-            // builder bounds are overridden by the configuration where it sets them
-            let other = ch::any_usize();
-            let p = item.repeated().at_least(other);
-            let mut cfg = RepeatedCfg::default().at_least(at_least);
-            if capped {
-                cfg = cfg.at_most(cap);
+            let (c_lo_set, c_lo, c_hi_set, c_hi) = (ch::any_bool(), ch::any_usize(), ch::any_bool(), ch::any_usize());
+            let mut cfg = RepeatedCfg::default();
+            if c_lo_set {
+                cfg = cfg.at_least(c_lo);
             }
+            if c_hi_set {
+                cfg = cfg.at_most(c_hi);
+            }
+            vcover!(c_lo_set && !c_hi_set && b_capped, "repeated.next_cfg: minimum from the configuration, cap from the builder");
+            vcover!(!c_lo_set && c_hi_set, "repeated.next_cfg: cap from the configuration, minimum from the builder");
+            vcover!(c_hi_set && b_capped && c_hi > b_hi, "repeated.next_cfg: configured cap looser than the builder's");
+            at_least = if c_lo_set { c_lo } else { b_lo };
+            capped = c_hi_set || b_capped;
+            cap = if c_hi_set { c_hi } else { b_hi };
             p.next_cfg::<M>(inp, &mut count, &cfg)
         } else {
-            let mut p = item.repeated().at_least(at_least);
-            if capped {
-                p = p.at_most(cap);
-            }
+            at_least = b_lo;
+            capped = b_capped;
+            cap = b_hi;
             p.next::<M>(inp, &mut count)
         };
         let s = snap(inp);
         let a = lg(inp, 0);
         let (ok, some, out) = item_of::<M>(&r);
         let at_cap = capped && count0 >= cap;
+        if CFG {
+            vassert!(a.called != at_cap, "C15/configure_repeated.cap-in-force-is-the-configured-one-else-the-builders");
+            if a.called && !a.ok {
+                vassert!(ok == (count0 >= at_least), "C15/configure_repeated.minimum-in-force-is-the-configured-one-else-the-builders");
+            }
+        }
         if at_cap {
             vcover!(true, "repeated.next: at the cap");
             vassert!(ok && !some && !a.called, "C02/repeated.stops-at-at_most-without-trying-another-item");
